@@ -1,20 +1,15 @@
 """ConfigScopes (extra) — Rally's layered configuration: esrally/config.py Config / ConfigFile / auto_load_local_config.
-
-Specified (specs/ConfigScopes): a configuration is a partial map <<scope, section, key>> -> value; opts() returns the value of
-the most specific (highest) scope that defines the key whatever the insertion order, a later add() in the same scope (None =
-application) replaces the earlier one, opts(mandatory=True) raises a ConfigError naming section and key iff no scope defines the
-key and returns the default otherwise, exists() = "effective value is not None" and agrees with opts(), all_opts(section) has
-exactly the section's keys with the values opts() returns (for every insertion order), add_all copies the slots of exactly one
-section (source wins unless the target defines the key in a narrower scope), load_config = built-in defaults + ini file as
-strings in application scope (earlier adds forgotten; ${CONFIG_DIR}, $$ and %% rewritten; version checked only with auto_upgrade),
-ConfigFile.store + load_config round trip, auto_load_local_config = local file (default installed when missing, named like the
-base config) + the six fixed and the additional sections of the base config, base values winning.  Naive readings that the
-code does not satisfy are named in the spec (Naive*) and proved to be deviations by TLC.
-
-Leg M   : TLC on ConfigScopes.quick.cfg (all calls, depth 3) and ConfigScopes.table.cfg (every scope assignment of two keys).
-Leg S2C : every state of the table and TLC -simulate behaviours (sim.cfg) are executed on the real Config in a scratch RALLY_HOME.
-Leg C2S : those executions + seeded random call sequences over real section names + hand-written witnesses of the named
-          deviations are validated by TLC against TraceConfigScopes.tla (L1 documented lookups, L2 transcription).
+A configuration is a partial map <<scope, section, key>> -> value (specs/ConfigScopes).  Invariants: opts() returns the value of the
+most specific scope defining the key, whatever the insertion order; a later add() in the same scope (None = application) replaces
+the earlier one; opts(mandatory=True) raises a ConfigError naming section/key iff no scope defines the key, else the default is
+returned; exists() <=> effective value is not None, consistent with opts(); all_opts(section) = exactly the section's keys with the
+values opts() returns; add_all copies the slots of exactly one section (source wins unless the target defines the key in a narrower
+scope); load_config = built-in defaults + ini file as strings in application scope (earlier adds forgotten, ${CONFIG_DIR} / $$ / %%
+rewritten, version checked only with auto_upgrade); ConfigFile.store + load round trip; auto_load_local_config = local file named
+like the base config (packaged default installed when missing) + the six fixed and the additional sections of the base config, base
+values winning, nothing else leaking.  Eight naive readings the code does NOT satisfy are named (Naive*) and proved by TLC.
+Legs: M = TLC on quick.cfg (all calls, depth 3) + table.cfg (all scope assignments of two keys); S2C = every table state and TLC
+-simulate behaviours on the real Config in a scratch RALLY_HOME; C2S = those + seeded random sequences + deviation witnesses (L1/L2).
 """
 import configparser
 import glob
